@@ -70,6 +70,25 @@ def doOp (d : D) (ts : List String) : Option (D × String × List (Nat × String
     match (d.s.ws w).fd with
     | some fd => if busy d w || !fd.write then refused else some ({ d with s := writeFd d.s w (v % 10000) }, "started", [(w, "ok")])
     | none => refused
+  | ["touch", w, f] => do
+    let w := (← w.toNat?) % nW
+    let f ← f.toNat?
+    if busy d w || anyFd d.s nW || d.chmodBlk.isSome || d.chFlight.isSome || d.modePark.isSome then refused
+    else some ({ d with s := chmod d.s f (d.s.fmode f) }, "started", [(w, "ok")])   -- new node, same content and mode: full propagation
+  | ["fflush", w, f] => do
+    let w := (← w.toNat?) % nW
+    let f ← f.toNat?
+    if busy d w || (d.s.ws w).fd.isSome || d.modePark.isSome || writerOf d.s nW f || readersOf d.s nW f then refused else
+    -- File.Flush = Open(Write, Sync); Flush; Close
+    let s1 := openFd d.s w f true true
+    let s2 := runUntil "-" 12 (beginFlush s1 w false) w
+    let s3 := runUntil "-" 12 (beginFlush s2 w true) w
+    some ({ d with s := s3 }, "started", [(w, "ok")])
+  | ["fsync", w, f] => do
+    let w := (← w.toNat?) % nW
+    let f ← f.toNat?
+    if busy d w || (d.s.ws w).fd.isSome || d.modePark.isSome || writerOf d.s nW f || readersOf d.s nW f then refused
+    else some (d, "started", [(w, "ok")])
   | [op, w, p] =>
     if op == "flush" || op == "close" then do
       let w := (← w.toNat?) % nW
@@ -109,6 +128,22 @@ def doOp (d : D) (ts : List String) : Option (D × String × List (Nat × String
       if busy d w' || d.modePark.isSome then refused
       else some ({ d with s := rootGetNode d.s }, "started", [(w', tok (d.s.fnode f))])
     else none
+  | ["rootflush", w] => do
+    let w := (← w.toNat?) % nW
+    if busy d w || d.modePark.isSome then refused
+    else some ({ d with s := rootGetNode d.s }, "started", [(w, "ok")])
+  | ["lsnames", w] => do
+    let w := (← w.toNat?) % nW
+    if busy d w || d.modePark.isSome then refused
+    else some (d, "started", [(w, "a,b")])
+  | ["size", w] => do
+    let w := (← w.toNat?) % nW
+    if busy d w || (d.s.ws w).fd.isNone then refused else some (d, "started", [(w, "4")])
+  | ["fdread", w] => do
+    let w := (← w.toNat?) % nW
+    match (d.s.ws w).fd with
+    | some fd => if busy d w || fd.write then refused else some (d, "started", [(w, tok fd.buf)])
+    | none => refused
   | ["ls", w] => do
     let w := (← w.toNat?) % nW
     if busy d w || d.modePark.isSome then refused
